@@ -41,7 +41,7 @@ func init() {
 			"(c) zoo bitmaps of 1..40 words (quick) / up to 2000 words (thorough). Rank64 is driven through the plain and the trailing index, Rank128 through IndexRank128; index entries and shapes are checked against the sweep. " +
 			"Non-trivial+distinct = hash of bitmaps containing at least one 0 and one 1.",
 		Assumptions: []string{"positions only inside the bitmap (stated domain)", "nothing asserted about cap of returned index slices"},
-		Flavours:    releaseThenGo126,
+		Flavours:    releaseAnd386,
 		Required:    req,
 		Families: func(c *mon.Config) []mon.Family {
 			return []mon.Family{
